@@ -202,6 +202,22 @@ class C06(BaseCheck):
           out.obligations += 1
           if s > mx:
             viol('growth-cap', 'load-driven expansion to %d active members, max_size=%d' % (s, mx), {})
+        elif marked_down and not (jit or joined or left_active) and s > mx and \
+            not any('Exception caught opening channel' in l[2] for l in logs):
+          # growth past max_size is only legitimate as the replacement of a member that is down.  If
+          # every node this operation marked down is merely connecting (never failed), nothing was
+          # there to replace: a connecting member is marked down quietly and comes back when it opens
+          out.obligations += 1
+          marked = set()
+          for l in logs:
+            if 'Marking node' in l[2] and l[2].rstrip().endswith('down'):
+              marked.add(l[2].split('Marking node', 1)[1].rsplit('down', 1)[0].strip())
+          act_ch = [c for c in w.heap_channels() if str(c.ep) in marked]
+          if marked and act_ch and len(act_ch) == len(marked) and \
+              all(c._state == IDLE and not c.down and not c.close_steps for c in act_ch):
+            viol('growth-cap', 'expansion to %d active members, max_size=%d: the only member(s) marked down, %s, were '
+                 'still connecting and had not failed, yet replacements were pulled in' % (s, mx, sorted(marked)),
+                 {'replacement_without_failure': True})
 
     def op(fn, left_active=False, joined=False):
       pre = sizes()[0]
